@@ -76,6 +76,12 @@ fn main() {
                         play(&mut g, &mut rng, pol, 16, 0.25);
                     }
                 }
+                "setupall" => {
+                    if round > 1 {
+                        break;
+                    }
+                    setup_all(&mut g);
+                }
                 "focus" => {
                     // two-ply probes around one intended first step (a push start or a step that may lead a
                     // pull): parse, play that step if the engine offers it, observe the follow-up state and
